@@ -240,7 +240,10 @@ func (fx *FuncCtx) callStatic(st *State, x *ssa.Call, callee *ssa.Function) (for
 		return nil, false
 	}
 	// contract?
-	if ct := fx.eng.summaryFor(callee); ct != nil && !(fx.fn == callee && len(st.stack) == 1 && false) {
+	if ct := fx.eng.summaryFor(callee); ct != nil {
+		if ct.Trusted != "" {
+			fx.warn("trusted contract of %s (%s)", ct.FuncKey, ct.Trusted)
+		}
 		fx.applyContract(st, x, callee, ct, args)
 		return nil, false
 	}
